@@ -471,6 +471,40 @@ class WriterDriver(explore.Driver):
                                 "wrong-data-lazy-access",
                                 f"{feat}: index / slice access differs",
                                 feat=feat)
+                        # what the feature object says about itself, the
+                        # whole-array conversion and event-wise iteration
+                        try:
+                            if feat == "trace":
+                                t0 = sorted(e)[0]
+                                obj, ee = ds[feat][t0], np.asarray(e[t0])
+                            elif feat == "contour":
+                                obj, ee = None, None
+                                ok3 = all(gen.arrays_equal(a, b) for a, b
+                                          in zip(ds[feat], e)) and \
+                                    len(list(ds[feat])) == len(e)
+                            else:
+                                obj, ee = ds[feat], np.asarray(e)
+                            if obj is not None:
+                                ok3 = tuple(obj.shape) == ee.shape \
+                                    and len(obj) == len(ee) \
+                                    and gen.arrays_equal(
+                                        np.asarray(obj), ee) \
+                                    and len(list(obj)) == len(ee) \
+                                    and all(gen.arrays_equal(a, b)
+                                            for a, b in zip(obj, ee)) \
+                                    and np.asarray(obj[:]).dtype == np.dtype(
+                                        obj.dtype)
+                        except Exception as ex:
+                            ok3 = False
+                            bad(W, "exception", f"describing {feat}: "
+                                f"{type(ex).__name__}: {ex}",
+                                exc=type(ex).__name__, feat=feat)
+                        if not ok3:
+                            bad("dclab.rtdc_dataset.fmt_hdf5.events",
+                                "wrong-data-lazy-access",
+                                f"{feat}: shape / len / whole-array "
+                                f"conversion / iteration differs",
+                                feat=feat, how="describe")
                     for name, lines in mdl["logs"].items():
                         if name not in ds.logs or ds.logs[name] != lines:
                             longer = any(len(li.encode()) > 100
@@ -479,10 +513,44 @@ class WriterDriver(explore.Driver):
                                 f"{name}: "
                                 f"{ds.logs[name] if name in ds.logs else None}"
                                 f" != {lines}", long_line=longer)
-                    for name in mdl["tables"]:
+                    tabs_ = tables()
+                    for name, var in mdl["tables"].items():
                         if name not in ds.tables:
                             bad(W + ".store_table", "table-missing-dclab",
                                 name)
+                            continue
+                        # every cell through the dataset's own table access
+                        got = ds.tables[name]
+                        want = tabs_[var]
+                        cols = list(want.keys()) if isinstance(want, dict) \
+                            else list(want.dtype.names)
+                        try:
+                            ok = list(got.dtype.names) == cols and all(
+                                gen.arrays_equal(
+                                    np.ravel(np.asarray(got[c])),
+                                    np.ravel(np.asarray(want[c], float)))
+                                for c in cols) and all(
+                                gen.arrays_equal(
+                                    np.ravel(np.asarray(got[:][c])),
+                                    np.ravel(np.asarray(want[c], float)))
+                                for c in cols)
+                        except Exception as ex:
+                            ok = False
+                            bad(W + ".store_table", "exception",
+                                f"ds.tables[{name!r}]: "
+                                f"{type(ex).__name__}: {ex}",
+                                exc=type(ex).__name__)
+                        if not ok:
+                            bad(W + ".store_table", "wrong-table-dclab",
+                                f"{name} {var}")
+                    if sorted(ds.tables.keys()) != sorted(mdl["tables"]) \
+                            or len(ds.tables) != len(mdl["tables"]):
+                        bad(W + ".store_table", "wrong-table-set-dclab",
+                            f"{sorted(ds.tables.keys())}")
+                    if len(ds.logs) != len(mdl["logs"]) or sorted(
+                            ds.logs.keys()) != sorted(mdl["logs"]):
+                        bad(W + ".write_text", "wrong-log-set-dclab",
+                            f"{sorted(ds.logs.keys())}")
                     for (sec, k), v in mdl["meta"].items():
                         got = ds.config[sec].get(k)
                         typ = TYPES.get((sec, k))
